@@ -27,5 +27,17 @@ def plan(tier, seed):
     units = [Unit('C10-gxx-%d' % i, 'gxx', 'props/C10.h', [r], rc_cases=cases, chunk=1, words=64) for i, r in enumerate(regs)]
     units.append(Unit('C10-clang-0', 'clang', 'props/C10.h', regs[5:6], rc_cases=cases, chunk=1, words=64))
     units.append(Unit('C10-clang-1', 'clang', 'props/C10.h', regs[9:10], rc_cases=cases, chunk=1, words=64))
+    # every width: single-word (65..127) and multi-limb storage with each limb type (the storage rounds Digits up to whole limbs, so
+    # Digits mod limb width takes every value)
+    sweeps = [
+        ('Sw_w1_int', 'c10::Wide<E, int, true, true>', 'sweep|E|int', 65, 127),
+        ('Sw_w1_u', 'c10::Wide<E, unsigned, true, true>', 'sweep|E|unsigned', 65, 127),
+        ('Sw_w_int', 'c10::Wide<E, int, false, true>', 'sweep|E|int', 128, 331),
+        ('Sw_w_u', 'c10::Wide<E, unsigned, false, true>', 'sweep|E|unsigned', 129, 260),
+        ('Sw_w_i64', 'c10::Wide<E, std::int64_t, false, false>', 'sweep|E|std::int64_t', 128, 331),
+        ('Sw_w_u8', 'c10::Wide<E, std::uint8_t, false, false>', 'sweep|E|std::uint8_t', 128, 259),
+        ('Sw_w_i16', 'c10::Wide<E, std::int16_t, false, false>', 'sweep|E|std::int16_t', 128, 259),
+    ]
+    units += sweep_units('C10', 'props/C10.h', sweeps, cases, nunits=16, keep=(lambda i, r: i % 3 == 0) if quick else None, words=64)
     from .common import with_fuzz
     return with_fuzz(dict(units=units, rule=RULE, assumptions=['values are moved in and out of wide types through the limb array (uintwide_t::representation), never through CNL arithmetic']), 'C10', 'props/C10.h', [regs[3], regs[5], regs[6], regs[9]], tier, 40000, 2000000, max_len=514, chunk=1)
